@@ -1,4 +1,5 @@
 """Per-property metadata used by ./check: evidence level, enumeration rule, non-vacuity counters."""
+import engines
 
 E1_ASSUME = [
     "inputs larger than the stated small scope are not explored (bounds are tied to the code's branches in DESIGN.md 3.5)",
@@ -154,6 +155,16 @@ CHECKS = {
         "require": ["process_runs", "restricted_queries"],
         "assumptions": E1_ASSUME + ["OS thread schedules of the multi-threaded tools are sampled, not enumerated"],
     },
+    "C20": {
+        "level": "exploration",
+        "engine": engines.engine_c20,
+        "engine_name": "c20_values.py",
+        "technique": "bounded-exhaustive enumeration of ranges, bin counts, statistics and fill values through the built Python extension, compared with a pure-Python per-base reference",
+        "rule": "exhaustive: for every encoder-written bigWig / bigBed file on a 12-base chromosome, every range s in -3..11 x e in s+1..15 (below 0 and past the end included) x bins in {None} u 1..(e-s) x {mean,min,max} x exact {True,False} x (missing,oob) in {(0,NaN),(-1,-7),(NaN,0)} through pybigtools.open(path).values(...) of the extension built from /repo. Oracle: per-base = stored value / depth, missing where no data, oob outside [0,len); exact bins of integral width = statistic over the covered bases (missing when none; oob when wholly outside; partly outside: don't-care); every width: never NaN for finite data and fills, value within the data touching the bin's span (inexact: within the chromosome's data range) or missing; no exception, no abort. evaluations = (file, start) blocks; non-trivial = file with >=2 data bases",
+        "require": ["calls", "per_base_calls", "exact_integral_bins", "exact_fractional_bins", "inexact_calls", "oob_cells", "bigwig_files", "bigbed_files"],
+        "assumptions": E1_ASSUME + ["files come from the independent encoder, so reader/writer defects of other properties cannot fake or mask a result",
+                                    "interpolated (exact=False) mode has no sharper oracle in the statement than range and NaN-freedom"],
+    },
 }
 
 HOOKS = {
@@ -167,7 +178,9 @@ HOOKS = {
 ENGINES = [
     {"name": "vloom", "path": "/verif/harness/vloom", "serves_properties": ["C12"],
      "kind_free_text": "loom crate whose build.rs copies /repo/bigtools/src/utils/file/tempfilebuffer.rs rewriting only its sync imports; explores every schedule of producer/consumer scenarios"},
-    {"name": "vh", "path": "/verif/harness/vh", "serves_properties": sorted(k for k in CHECKS.keys() if k != "C12"),
+    {"name": "c20_values.py", "path": "/verif/py/c20_values.py", "serves_properties": ["C20"],
+     "kind_free_text": "python3-vt driver of the built pybigtools extension (files from the Rust independent encoder)"},
+    {"name": "vh", "path": "/verif/harness/vh", "serves_properties": sorted(k for k in CHECKS.keys() if k not in ("C12", "C20")),
      "kind_free_text": "Rust harness linking /repo/bigtools: exhaustive enumerators, reference models, independent decoder; run as supervised partitioned workers by ./check"},
 ]
 
